@@ -1,6 +1,7 @@
 (* C18 — timestamped stream aggregates never go back in time and are carried forward. *)
 From stdpp Require Import gmap.
 From DS Require Import Base Decimal StreamValue Aggregators Outcome OutcomeProofs StepTheorems HistoryProofs HistoryLifts NvHistory.
+From DS Require BytesHistory.
 Open Scope Z_scope.
 
 (* while the (stream, aggregator) pair stays referenced, a timestamped aggregate is kept, replaced by a strictly
@@ -38,6 +39,16 @@ Theorem C18_observed_at_nondecreasing : forall h cf (es : list event) (e0 : even
   forall e t, e ∈ (e0 :: es) -> tsv_time (ev_next e) p = Some t -> t0 <= t.
 Proof. exact observed_at_nondecreasing. Qed.
 Print Assumptions C18_observed_at_nondecreasing.
+
+(* ... and over histories on the wire *)
+Theorem C18_observed_at_nondecreasing_on_the_wire : forall h check cf (bs : list BytesHistory.bevent) (b0 : BytesHistory.bevent) p t0,
+  BytesHistory.check_typed check -> Forall (BytesHistory.bvalid h check cf) (b0 :: bs) -> BytesHistory.blinked (b0 :: bs) ->
+  tsv_time (BytesHistory.dec_or_initial cf (BytesHistory.bv_prev b0)) p = Some t0 ->
+  (forall b, In b (b0 :: bs) -> p ∈ referenced_pairs (o_defs (BytesHistory.dec_or_initial cf (BytesHistory.bv_next b))) /\
+                                exists t, tsv_time (BytesHistory.dec_or_initial cf (BytesHistory.bv_next b)) p = Some t) ->
+  forall b t, In b (b0 :: bs) -> tsv_time (BytesHistory.dec_or_initial cf (BytesHistory.bv_next b)) p = Some t -> t0 <= t.
+Proof. exact BytesHistory.observed_at_nondecreasing_on_the_wire. Qed.
+Print Assumptions C18_observed_at_nondecreasing_on_the_wire.
 
 (* non-vacuity: observed-at 11s in round 3, observers report 10s in round 4: the aggregate stays at 11s *)
 Example C18_nv :
